@@ -170,6 +170,52 @@ PROPS['C04'] = dict(
                  'practical reach of search (DESIGN.md section 8)'],
 )
 
+c07 = B('c07_ftoa', 'c07_ftoa.cpp', 'asan')
+c07p = B('c07_ftoa', 'c07_ftoa.cpp', 'prod', defines=['-DVF_CANARY'])
+PROPS['C07'] = dict(
+    title='Finite doubles print as the shortest decimal that reads back to the same double',
+    units=[
+        U(c07, 'prng', 250000, 8000000, wq=4, wt=8, label='c07-asan'),
+        U(c07p, 'prng', 900000, 40000000, wq=4, wt=8, label='c07-prod'),
+        U(c07, 'rc', 5000, 100000, wq=1, wt=2, label='c07-rc'),
+    ],
+    rule='cases: finite doubles from strata - every biased exponent 0..2046 in rotation with random and boundary significands '
+         '(0 = irregular power of two, 1, 2^52-1, 2^51...), subnormals by leading bit, integer-valued doubles and powers of ten, '
+         'single-precision values, values at the fixed/scientific format switches, short decimals at every decimal exponent, '
+         'uniformly random bit patterns; both signs. Oracle: glibc strtod(out) has the same bits; out is a JSON number with a '
+         'fraction or exponent; length <= 32 and no write outside a 33-byte block (ASan heap block / canary); no decimal with '
+         'one digit fewer reads back (nearest candidate and both neighbours, via glibc %.*e); out is the closest candidate of '
+         'its length that reads back (exact expansion consulted for ties and irregular intervals); Document::Parse(out) gives '
+         'the same bits. Non-trivial: not an integer below 2^53.',
+    min_evaluations=dict(quick=500000, thorough=10000000),
+    required_classes=['class:exp-rotation:boundary-sig', 'class:subnormal', 'class:integer-valued', 'class:float-value',
+                      'class:format-switch'],
+    assumptions=['an error confined to the low word of one 128-bit table entry is outside practical reach (DESIGN.md section 8)'],
+)
+
+c08 = B('c08_itoa', 'c08_itoa.cpp', 'asan')
+c08p = B('c08_itoa', 'c08_itoa.cpp', 'prod', defines=['-DVF_CANARY'])
+PROPS['C08'] = dict(
+    title='64-bit integers print as their exact decimal representation',
+    units=[
+        U(c08, 'prng', 382, 382, wq=4, wt=4, label='c08-kernels-asan', args=['--kernels'], sharded=True),
+        U(c08p, 'prng', 382, 382, wq=4, wt=4, label='c08-kernels-prod', args=['--kernels'], sharded=True),
+        U(c08, 'prng', 400000, 20000000, wq=2, wt=4, label='c08-compose-asan'),
+        U(c08p, 'prng', 1500000, 100000000, wq=2, wt=4, label='c08-compose-prod'),
+        U(c08, 'rc', 5000, 100000, wq=1, wt=2, label='c08-rc'),
+    ],
+    rule='(a) complete enumeration of the two 8-digit kernels: Utoa_8(v) and Utoa_1_8(v) for ALL v < 10^8 (1526 blocks of 65536 '
+         'values, sharded over 4 workers, in both the sanitizer and the production build - exhaustive for that sub-domain in '
+         'every run) plus Utoa_16 on 64 (hi,lo) pairs per block; (b) composition U64toa/I64toa on 10^k-1,10^k,10^k+1, 2^k-1,2^k,'
+         '2^k+1, UINT64_MAX, INT64_MIN/MAX, every digit count 1..20, 8-digit groups equal to 0/1/99999999, random values, as '
+         'signed and unsigned, directly and through Serialize+Parse. Oracle: snprintf; length and 33-byte write bound (ASan '
+         'heap block / canary); parse-back keeps kind and value. Non-trivial: >= 9 digits or negative. evaluations counts the '
+         'kernel evaluations as oracle sub-evaluations.',
+    min_evaluations=dict(quick=100000000, thorough=200000000),
+    required_classes=['kernel-block', 'class:pow10-boundary', 'class:pow2-boundary', 'class:digit-count', 'class:group-pattern',
+                      'signed', 'unsigned'],
+)
+
 
 def tool_versions():
     out = {}
